@@ -36,6 +36,16 @@ func NewRetryHandler(discoveryService ports.DiscoveryService, logger logger.Styl
 // The retry handler treats it as "skip this endpoint and try the next candidate".
 var ErrCircuitOpen = errors.New("circuit breaker open")
 
+// ResponseStartedError wraps an error that occurred after response bytes had been handed to the client.
+// Such an attempt must never be re-dispatched to another endpoint: the client would receive a mix of two
+// responses. The message is that of the wrapped error.
+type ResponseStartedError struct {
+	Err error
+}
+
+func (e *ResponseStartedError) Error() string { return e.Err.Error() }
+func (e *ResponseStartedError) Unwrap() error { return e.Err }
+
 // ProxyFunc defines the signature for endpoint proxy implementations
 type ProxyFunc func(ctx context.Context, w http.ResponseWriter, r *http.Request, endpoint *domain.Endpoint, stats *ports.RequestStats) error
 
@@ -199,6 +209,12 @@ func (h *RetryHandler) buildFinalError(availableEndpoints []*domain.Endpoint, ma
 // IsConnectionError identifies transient network errors suitable for retry
 func IsConnectionError(err error) bool {
 	if err == nil {
+		return false
+	}
+
+	// once the response has started the request is no longer retryable, whatever broke the connection
+	var started *ResponseStartedError
+	if errors.As(err, &started) {
 		return false
 	}
 
